@@ -149,7 +149,7 @@ func (s *Sched) Run(done func() bool, maxSteps int) string {
 			return fmt.Sprintf("step budget of %d scheduling steps exhausted", maxSteps)
 		}
 		if s.ClockChance > 0 && s.r.T.Draw(s.ClockChance) == 0 {
-			d := time.Duration(1+s.r.T.Draw(int(s.ClockMax/time.Millisecond))) * time.Millisecond
+			d := time.Duration(1+s.r.T.Draw(int(s.ClockMax/time.Millisecond)))*time.Millisecond + 3*time.Nanosecond // never lands exactly on a timer of the system
 			s.r.Decision("clock", d.String())
 			s.SimTime += d
 			s.Steps++
